@@ -1,1 +1,66 @@
-From S2T Require Import Lib.PyStr C18.Model C18.Corr Gen.C18Tables.
+(* C18 — obligations re-decided by the kernel on the constants generated from /repo on this run, and
+   non-vacuity witnesses for the boolean hypotheses of C18/Props.v. *)
+From Coq Require Import ZArith List Bool.
+From S2T Require Import Lib.PyStr C18.Model C18.Proofs C18.Corr Gen.C18Tables.
+Local Open Scope nat_scope.
+
+(* the generated constants are usable: _SYSTEM_FIELDS has no duplicates and contains the columns the
+   metadata record already carries, the API base is non-empty, the token template has the tenant slot *)
+Theorem C18_tables_wf :
+  nodup_str system_fields && nonempty graph_base && token_template_has_tenant
+  && forallb (fun k => mem_str k system_fields) [s "id"; s "Created"; s "Modified"; s "FileLeafRef"; s "@odata.etag"]
+  = true.
+Proof. vm_compute. reflexivity. Qed.
+Print Assumptions C18_tables_wf.
+
+Definition E0 : env :=
+  {| lower := fun x => x; glob := fun _ _ => true; fromiso := fun _ => None; quote := fun x => x;
+     sysf := system_fields; base := graph_base;
+     token_url := token_prefix ++ s "tenant" ++ token_suffix;
+     site_api_url := graph_base ++ s "/sites/contoso.sharepoint.com:/sites/x" |}.
+
+Definition fi (nm i : str) : fitem :=
+  {| i_name := Some nm; i_id := Some i; i_web := None; i_dl := None; i_size := Some 3%Z; i_mime := None;
+     i_modified := None; i_created := Some (s "2024-01-15T10:30:00.9Z");
+     i_fields := Some [(s "Project", s "1"); (s "Created", s "2"); (s "@odata.etag", s "3")] |}.
+
+Definition T0 : list node :=
+  [File (fi (s "a.txt") (s "f1"));
+   Folder (Some (s "Docs")) (Some (s "d1"))
+     [JunkDict; File (fi (s "b c.pdf") (s "f2")); Folder (Some (s "Sub")) (Some (s "d2")) [File (fi (s "c") (s "f3"))]];
+   NonDict; File (fi (s "z") (s "f4"))].
+
+Definition P0 : paging := fun oid =>
+  match oid with
+  | None => [(1, s "next:1"); (0, s "next:2"); (2, s "next:3")]
+  | Some i => if str_eqb i (s "d1") then [(2, s "next:4")] else []
+  end.
+
+(* the hypotheses of the theorems are satisfiable *)
+Theorem C18_sample_wf :
+  server_wf E0 (s "SITE") None P0 T0 && nonempty (s "TOK") && fault_ok (FStatus (Some 500%Z)) && fault_ok FNonObj
+  && forallb (comparable E0 {| created_after := None; created_before := None; modified_after := None;
+                              modified_before := None; folder_paths := []; path_patterns := [s "*"];
+                              extensions := [s ".pdf"] |}) (spec_files E0 [] T0)
+  = true.
+Proof. vm_compute. reflexivity. Qed.
+Print Assumptions C18_sample_wf.
+
+(* the model on the sample with today's constants: complete listing of 4 files over 3+... pages, a fault at
+   request 4 contained, the retry complete *)
+Theorem C18_sample_run :
+  let fuel := need P0 None T0 in
+  let table := server_table E0 (s "SITE") None P0 T0 in
+  let wH := healthy E0 (s "TOK") table in
+  let wF := faulty wH 4 (resp_of_fault FNonObj) in
+  let '(r, s1) := run E0 wH (list_all_files E0 fuel) st0 in
+  let '(rf, sf) := run E0 wF (list_all_files E0 fuel) st0 in
+  let '(rr, _) := run E0 wF (list_all_files E0 fuel) sf in
+  res_eqb r (Ok (spec_files E0 [] T0)) && Nat.eqb (List.length (spec_files E0 [] T0)) 4
+  && Nat.eqb (nreq s1) 16
+  && match rf with Raise (RequestError None u) => str_eqb u (s "next:2") | _ => false end
+  && Nat.eqb (opened sf) (closed sf)
+  && res_eqb rr r
+  = true.
+Proof. vm_compute. reflexivity. Qed.
+Print Assumptions C18_sample_run.
